@@ -9,8 +9,8 @@ import (
 
 // The C10 table.
 var (
-	c10P     = []string{"absent", "unnamed", "named-n", "named-m", "metavar", "dot", "blank"}
-	c10F     = []string{"no-imports", "other-paths-only", "unnamed", "name-n", "name-k", "dot", "blank", "twice-n-then-k", "twice-k-then-n", "twice-unnamed-then-k"}
+	c10P     = []string{"absent", "unnamed", "named-n", "named-m", "named-base", "metavar", "dot", "blank"}
+	c10F     = []string{"no-imports", "other-paths-only", "unnamed", "name-n", "name-k", "name-base", "dot", "blank", "twice-n-then-k", "twice-k-then-n", "twice-unnamed-then-k"}
 	c10G2    = []string{"none", "second-holds", "second-fails"}
 	c10Shape = []string{"single", "grouped", "two-blocks"}
 	c10Pkg   = []string{"none", "matching", "non-matching", "rename-matching", "rename-non-matching"}
@@ -60,6 +60,8 @@ func (c c10Cell) guard1Holds() bool {
 		names = []string{"n"}
 	case "name-k":
 		names = []string{"k"}
+	case "name-base":
+		names = []string{"p"}
 	case "dot":
 		names = []string{"."}
 	case "blank":
@@ -83,6 +85,10 @@ func (c c10Cell) guard1Holds() bool {
 			}
 		case "named-m":
 			if nm == "m" {
+				return true
+			}
+		case "named-base":
+			if nm == "p" {
 				return true
 			}
 		case "metavar":
@@ -154,6 +160,8 @@ func (c c10Cell) patch() string {
 		imp("n", c10Path1)
 	case "named-m":
 		imp("m", c10Path1)
+	case "named-base":
+		imp("p", c10Path1)
 	case "metavar":
 		imp("imp", c10Path1)
 	case "dot":
@@ -193,6 +201,8 @@ func (c c10Cell) file() string {
 		add("n", c10Path1)
 	case "name-k":
 		add("k", c10Path1)
+	case "name-base":
+		add("p", c10Path1)
 	case "dot":
 		add(".", c10Path1)
 	case "blank":
@@ -257,7 +267,7 @@ func init() {
 	core.Register(&core.Prop{
 		ID:    "C10",
 		Level: "exploration",
-		Rule: "exhaustive table of 6300 cells: patch-side import form {absent, unnamed, named n, named other, metavariable-named, '.', '_'} x file-side form {no imports, other paths only, unnamed, same name, other name, '.', '_', " +
+		Rule: "exhaustive table of 7920 cells: patch-side import form {absent, unnamed, named n, named other, named like the last path element, metavariable-named, '.', '_'} x file-side form {no imports, other paths only, unnamed, same name, other name, named like the last path element, '.', '_', " +
 			"same path twice under two names (both orders), unnamed+named} x second guard import {none, holds, fails} x import block shape {single, grouped, two blocks} x package clause {none, matching, non-matching, rename of matching, rename of non-matching} " +
 			"x guard line prefix {context, '-'}; every cell on a file in which the code pattern occurs; library API for all cells, CLI for every 8th batch. Oracle: the change applies iff every guard holds per the statement's table. " +
 			"Every cell is non-trivial and distinct (one configuration each).",
